@@ -7,7 +7,7 @@ from formulaic.parser.types import Factor, Term
 from formulaic.utils.layered_mapping import LayeredMapping
 from formulaic.utils.structured import Structured
 
-for _k, _v in (("__LO__", -3), ("__HI__", 2), ("__NP__", 3), ("__OP1__", 0), ("__OP2__", 0)):
+for _k, _v in (("__LO__", -3), ("__HI__", 2), ("__NP__", 3), ("__OP1__", 0), ("__OP2__", 0), ("__ORD__", 0)):
     globals().setdefault(_k, _v)  # defaults for native runs / replays; the runner substitutes the tokens textually
 
 
@@ -304,7 +304,8 @@ def sf_ops(op1: int, i1: int, t1: int, op2: int, i2: int, t2: int) -> bool:
     i1, i2 = _pick(i1, __LO__, __HI__), _pick(i2, __LO__, __HI__)
     t1, t2 = _pick(t1, 0, __NP__ - 1), _pick(t2, 0, __NP__ - 1)
     pool = _pool()
-    f = SimpleFormula([pool[2], pool[1], pool[0]])
+    ordering = ("degree", "none", "sort")[__ORD__]
+    f = SimpleFormula([pool[2], pool[1], pool[0]], _ordering=ordering)
     ref = list(f)
     for op, i, t in ((op1, i1, t1), (op2, i2, t2)):
         mirror = list(ref)
@@ -324,16 +325,26 @@ def sf_ops(op1: int, i1: int, t1: int, op2: int, i2: int, t2: int) -> bool:
             continue
         got = list(f)
         degs = [x.degree for x in got]
-        if degs != sorted(degs):  # ordering invariant after every operation
+        # the ordering policy's invariant holds after every operation
+        if ordering == "degree" and degs != sorted(degs):
             return False
+        if ordering == "none" and [repr(x) for x in got] != [repr(x) for x in mirror]:
+            return False
+        if ordering == "sort":
+            keys = [(x.degree, tuple(sorted(fc.expr for fc in x.factors))) for x in got]
+            if keys != sorted(keys) or any([fc.expr for fc in x.factors] != sorted(fc.expr for fc in x.factors) for x in got):
+                return False
         if sorted(repr(x) for x in got) != sorted(repr(x) for x in mirror):  # same multiset as a plain list
+            return False
+        # ... and the mutated formula is the formula one would build from the resulting list
+        if [repr(x) for x in SimpleFormula(mirror, _ordering=ordering)] != [repr(x) for x in got]:
             return False
         ref = got
     return True
 
 
-def sf_shards(lo, hi, npool):
-    return [{"OP1": a, "OP2": b, "LO": lo, "HI": hi, "NP": npool} for a in range(3) for b in range(3)]
+def sf_shards(lo, hi, npool, orderings=("degree", "none", "sort")):
+    return [{"OP1": a, "OP2": b, "LO": lo, "HI": hi, "NP": npool, "ORD": ("degree", "none", "sort").index(o)} for o in orderings for a in range(3) for b in range(3)]
 
 
 def explain(fname, call):
